@@ -120,6 +120,19 @@ func alphabet(nev int, multiOff bool) []op {
 	return ops
 }
 
+// absentOffs: Off naming only things that are not registered handlers (a never-registered function, a nil
+// function value, untyped nil, a non-function), alone and together with a real handler. Event families only.
+func absentOffs(nev int) []op {
+	var ops []op
+	for ev := 0; ev < nev; ev++ {
+		for _, k := range []int{hForeign, hNilFunc, hNil, hNotFunc} {
+			ops = append(ops, op{"off", ev, []int{k}}, op{"off", ev, []int{k, 0}})
+		}
+		ops = append(ops, op{"off", ev, []int{hNilFunc, hNil}})
+	}
+	return ops
+}
+
 // ---------------------------------------------------------------- families (real objects)
 
 // inst is one fresh real registry (or API object wrapping one).
@@ -135,6 +148,7 @@ type family struct {
 	multiOff bool
 	vs       bool // needs the scheduler (spawns goroutines)
 	fresh    func() inst
+	absent   bool // Off(...) also with things that are not registered handlers (event families: handlers are `any`)
 }
 
 var ran []int // log of handler invocations (reset per fire)
@@ -224,10 +238,32 @@ func anyFns(hs []int) []any {
 	}
 	out := make([]any, len(hs))
 	for i, h := range hs {
-		out[i] = evFns[h]
+		switch h {
+		case hForeign:
+			out[i] = foreignFn // a function that is never registered
+		case hNilFunc:
+			var f func()
+			out[i] = f // a nil function value
+		case hNil:
+			out[i] = nil // untyped nil
+		case hNotFunc:
+			out[i] = 42 // not a function at all
+		default:
+			out[i] = evFns[h]
+		}
 	}
 	return out
 }
+
+// handler ids >= 3 name nothing that is (or can be) registered: Off with them removes nothing.
+const (
+	hForeign = 3 + iota
+	hNilFunc
+	hNil
+	hNotFunc
+)
+
+func foreignFn() { note(99) }
 func (i *ehInst) do(o op) {
 	switch o.kind {
 	case "on":
@@ -407,12 +443,12 @@ func (i *seInst) fire(ev int) []int {
 
 func families(tier string) []family {
 	return []family{
-		{"handlerStore", 1, true, false, func() inst { return &hsInst{sio.VerifNewHandlerStore[*tfn]()} }},
-		{"eventHandlerStore", 2, true, false, func() inst { return &ehInst{sio.VerifNewEventHandlerStore()} }},
-		{"Server.NewNamespace", 1, true, true, func() inst { return &nnInst{srv: sio.NewServer(nil)} }},
-		{"Namespace.Event", 2, true, true, func() inst { return &nsInst{sio.NewServer(nil).Of("/x")} }},
-		{"ServerSocket.Event", 2, true, true, newSSInst},
-		{"ServerSocket.Error", 1, true, true, newSEInst},
+		{"handlerStore", 1, true, false, func() inst { return &hsInst{sio.VerifNewHandlerStore[*tfn]()} }, false},
+		{"eventHandlerStore", 2, true, false, func() inst { return &ehInst{sio.VerifNewEventHandlerStore()} }, true},
+		{"Server.NewNamespace", 1, true, true, func() inst { return &nnInst{srv: sio.NewServer(nil)} }, false},
+		{"Namespace.Event", 2, true, true, func() inst { return &nsInst{sio.NewServer(nil).Of("/x")} }, true},
+		{"ServerSocket.Event", 2, true, true, newSSInst, true},
+		{"ServerSocket.Error", 1, true, true, newSEInst, false},
 	}
 }
 
@@ -493,6 +529,8 @@ func opShape(o op) string {
 	switch {
 	case o.kind == "off" && len(o.hs) == 0:
 		return "Off()"
+	case o.kind == "off" && o.hs[0] >= hForeign:
+		return "Off(something that is not a registered handler" + map[bool]string{true: ", h", false: ""}[len(o.hs) > 1 && o.hs[1] < hForeign] + ")"
 	case o.kind == "off" && len(o.hs) == 1:
 		return "Off(h)"
 	case o.kind == "off" && len(o.hs) >= 2:
@@ -514,6 +552,9 @@ func opShape(o op) string {
 
 func bfs(f family, depth int, r *vx.Report, deadline time.Time) {
 	ops := alphabet(f.nev, f.multiOff)
+	if f.absent {
+		ops = append(ops, absentOffs(f.nev)...)
+	}
 	type node struct {
 		hist []op
 		m    *model
@@ -685,7 +726,7 @@ func main() {
 	vx.Main(vx.Config{
 		Property: "C18",
 		Level:    "model_checking",
-		Rule: "explicit-state BFS: every history of On/Once/Off(0..3 handlers, incl. duplicates)/OffAll/fire over 3 handlers x 1-2 events (one name a prefix of the other) up to the depth shown per family, " +
+		Rule: "explicit-state BFS: every history of On/Once/Off(0..3 handlers, incl. duplicates; for the event families also Off naming a never-registered function, a nil function value, untyped nil or a non-function, alone and next to a real handler)/OffAll/fire over 3 handlers x 1-2 events (one name a prefix of the other) up to the depth shown per family, " +
 			"each replayed on a fresh real registry / public wrapper and compared step by step with a reference list model; plus all interleavings of racing occurrences with Off/On. " +
 			"distinct_nontrivial counts distinct histories of length >= 2 (BFS) and deviating schedules (concurrent part)",
 		Scenarios: scenarios,
